@@ -31,6 +31,7 @@ fn main() {
                 "decblk" => e3::decblk(&mut rec, &mut rng, thorough),
                 "decobj" => e3::decobj(&mut rec, &mut rng, thorough),
                 "inter" => e3::inter(&mut rec, &mut rng, thorough),
+                "overhead" => e3::overhead(&mut rec, &mut rng, thorough),
                 "plan" => e3::plan(&mut rec, &mut rng, thorough),
                 "linear" => e3::linear(&mut rec, &mut rng, thorough),
                 "wire" => e2::wire(&mut rec, &mut rng, thorough),
